@@ -163,6 +163,18 @@ CLAIMED["C09"] = {
     "ref": "DESIGN.md section 5 (C09)",
 }
 
+CLAIMED["C13"] = {
+    "text": "Proof: memory_info (statm page counts x page size, symbolic page size), _parse_smaps_rollup (loop invariant "
+            "with three folds over any roll-up file: uss = 1024 x sum of Private_* figures, pss/swap = the Pss:/Swap: "
+            "figures and no other key), memory_full_info (roll-up with fall-back to the listing, tuple layout) and the "
+            "front-end memory_percent (100*field/total, unknown field -> ValueError before any query). _parse_smaps, the "
+            "memory_maps block splitter and the grouped/ungrouped front end are covered by a bounded sweep over generated "
+            "smaps files against an independent decoding.",
+    "note": "roll-up line grammar assumed; kernel roll-up == per-mapping sums is the kernel's contract; bounded part not "
+            "counted as proved.",
+    "ref": "DESIGN.md section 5 (C13)",
+}
+
 NOT_YET = "check not built yet (work in progress, see DESIGN.md section 7)"
 NA = {}
 
